@@ -251,6 +251,18 @@ AppendPlan(U, fn, st, pc) ==
   IN [t |-> newT, next |-> DedupSeq(next, {}), refs |-> DedupSeq(refs2, {})]  \* Copy() de-duplicates
 
 (***************************************************************************)
+(* ToString (log.go) indents every line by the number of entries           *)
+(* entry.FindChildren returns: starting from x, repeatedly the FIRST entry *)
+(* of vals that names the current one as a predecessor.                    *)
+(***************************************************************************)
+FirstChild(U, x, vals) ==
+  LET I == {i \in DOMAIN vals : x \in SeqRange(U[vals[i]].next)}
+  IN IF I = {} THEN 0 ELSE vals[CHOOSE i \in I : \A j \in I : i <= j]
+RECURSIVE ChildChainLen(_, _, _)
+ChildChainLen(U, x, vals) ==
+  LET c == FirstChild(U, x, vals) IN IF c = 0 THEN 0 ELSE 1 + ChildChainLen(U, c, vals)
+
+(***************************************************************************)
 (* Declarative notions used by the property predicates (never by the       *)
 (* transcriptions above).                                                  *)
 (***************************************************************************)
